@@ -47,6 +47,14 @@ func IsClassDefined(frames []string, class string) bool {
 	return ok
 }
 
+// IsUserClassDefined reports whether exactly frame::class has been defined
+// (no fallback to the Builtin frames).
+func IsUserClassDefined(frame, class string) bool {
+	_, ok := DefinedClassTable[DefinedClass{frame: frame, class: class}]
+
+	return ok
+}
+
 func SetDefinedClass(frame, class string) {
 	key := DefinedClass{frame: frame, class: class}
 	DefinedClassTable[key] = true
